@@ -86,8 +86,12 @@ class PersistentRemoteWorker(PersistentWorker, RemoteWorker):
         while True:
             try:
                 result = recv_msg(self._socket, comment='data: result')
-            except ConnectionClosedError:
-                logger.debug('Connection closed by the remote peer')
+            except Exception as e:
+                if isinstance(e, ConnectionClosedError):
+                    logger.debug('Connection closed by the remote peer')
+                else:
+                    # e.g. the child was killed in the middle of writing a message: what follows cannot be trusted
+                    logger.exception('A message from the child could not be deserialized, treating the connection as lost')
                 self._socket_closed = True
                 self._result = (False, None)
                 if not last_partial_result_signalled:
